@@ -68,24 +68,34 @@ def keep(d, sid):
     print("kept", dst)
 
 def detect(sid, tier="quick", only=None):
+    """Runs the check against a scratch worktree of /repo HEAD with the seeded patch applied
+    (VERIF_REPO), so /repo itself stays untouched while other checks are running."""
     dst = Path("/verif/seeded") / sid
     meta = json.loads((dst / "meta.json").read_text())
     pid = meta["property"]
-    rc, out = sh("git status --porcelain", "/repo")
-    if out.strip():
-        print("repo not clean:", out); return 2
-    rc, out = sh(f"git apply {dst/'patch.diff'}", "/repo")
+    wt = Path(f"/tmp/seedwt-{sid}")
+    sh(f"git -C /repo worktree remove --force {wt}")
+    rc, out = sh(f"git -C /repo worktree add -q --detach {wt} HEAD")
     if rc != 0:
-        print("patch does not apply", out); return 2
+        print("worktree failed", out); return 2
+    rc, out = sh(f"git apply {dst/'patch.diff'}", wt)
+    if rc != 0:
+        print("patch does not apply", out); sh(f"git -C /repo worktree remove --force {wt}"); return 2
     t0 = time.time()
     try:
-        cmd = f"./check {pid} --tier {tier}" + (f" --only {only}" if only else "")
+        cmd = f"VERIF_REPO={wt} ./check {pid} --tier {tier}" + (f" --only {only}" if only else "")
         rc, out = sh(cmd, "/verif", timeout=4*3600)
     finally:
-        sh("git checkout -- .", "/repo")
+        sh(f"git -C /repo worktree remove --force {wt}")
+        alt = "alt-" + re.sub(r"[^A-Za-z0-9]+", "_", str(wt)).strip("_")
+        sh(f"rm -rf /verif/.kani-target/{alt}-* /verif/.work/{alt}")
     lines = [l for l in out.splitlines() if re.match(r"VIOLATION|INCONCLUSIVE|KNOWN|OK |\s+counterexample|\[(CEX|ERROR|TIMEOUT|UNWIND|VACUOUS)", l)]
     print("\n".join(lines[-25:]))
-    print(f"== {sid}: check exit {rc} ({'DETECTED' if rc == 1 else 'flagged-inconclusive' if rc == 2 else 'MISSED'}) in {time.time()-t0:.0f}s")
+    viol = any(l.startswith("VIOLATION") for l in lines)
+    verdict = "DETECTED" if (rc == 1 and viol) else "flagged-inconclusive" if rc == 2 else "MISSED" if rc == 0 else "TOOL-ERROR"
+    if verdict == "TOOL-ERROR":
+        print(out[-1500:])
+    print(f"== {sid}: check exit {rc} ({verdict}) in {time.time()-t0:.0f}s")
     det = meta.setdefault("detection", {})
     det[f"{tier}{'/'+only if only else ''}"] = {"exit": rc, "lines": lines[-8:], "wall_s": round(time.time()-t0)}
     (dst / "meta.json").write_text(json.dumps(meta, indent=1))
